@@ -7,7 +7,7 @@ import os, sys, json, subprocess, time, glob
 ROOT = os.path.dirname(os.path.dirname(os.path.abspath(__file__)))
 
 
-def sh(cmd, cwd=None, timeout=7200):
+def sh(cmd, cwd=None, timeout=1800):
     r = subprocess.run(cmd, shell=True, cwd=cwd, capture_output=True, text=True, timeout=timeout)
     return r.returncode, r.stdout + r.stderr
 
